@@ -320,11 +320,15 @@ def _delete(v, path, idx):
     return v
 
 
-def shrink(cfg, case, code, workdir, rounds=12, max_cands=120):
+def shrink(cfg, case, code, workdir, rounds=12, max_cands=120, known=()):
     """greedy delta-debugging: returns the smallest input found that still gets a verdict in the
-    same class (violation stays violation, disagreement stays disagreement)."""
+    same class (violation stays violation, disagreement stays disagreement; a case that only
+    exhibits a listed known finding counts as ok, so a genuine violation is never shrunk down
+    to the known one)."""
     def klass(c):
-        return "ok" if c == 0 else ("corr" if c == 1 else "prop")
+        if c == 0 or (c >= 100 and (c - 100) in known):
+            return "ok"
+        return "corr" if c == 1 else "prop"
     want = klass(code)
     best = case
     os.makedirs(workdir, exist_ok=True)
@@ -508,7 +512,7 @@ def _run_check(cfg, tier, seed):
 
     if unknown_fail:
         i, c = min(unknown_fail, key=lambda ic: len(cases[ic[0]]["coq"]))
-        small = shrink(cfg, dict(cases[i], code=c), c, os.path.join(work, "shrink"))
+        small = shrink(cfg, dict(cases[i], code=c), c, os.path.join(work, "shrink"), known=set(known_classes))
         rp = write_replay(pid, seed, "violation", {
             "property": pid, "kind": "failing-input", "tier": tier, "seed": seed,
             "what": "the implementation's observed behaviour violates the property oracle (Corr/%s.v prop_b)" % pid,
@@ -538,7 +542,7 @@ def _run_check(cfg, tier, seed):
                 if time.time() - t0 > (1500 if tier == "thorough" else 420):
                     break
         if found:
-            small = shrink(cfg, dict(found[0], code=found[1]), found[1], os.path.join(work, "shrink"))
+            small = shrink(cfg, dict(found[0], code=found[1]), found[1], os.path.join(work, "shrink"), known=set(known_classes))
             rp = write_replay(pid, seed, "violation", {
                 "property": pid, "kind": "failing-input", "tier": tier, "seed": seed,
                 "what": "model/implementation disagreement led to a failing input found by search",
@@ -552,7 +556,7 @@ def _run_check(cfg, tier, seed):
                        "disagreeing_cases_this_run": len(corr_fail), "notes": notes[:3]}
             if corr_fail:
                 i, c = min(corr_fail, key=lambda ic: len(cases[ic[0]]["coq"]))
-                small = shrink(cfg, dict(cases[i], code=c), c, os.path.join(work, "shrink"))
+                small = shrink(cfg, dict(cases[i], code=c), c, os.path.join(work, "shrink"), known=set(known_classes))
                 payload["smallest_disagreeing_case"] = case_payload(small, 1)
                 payload["replay_cmd"] = "./check %s --replay <this file>" % pid
             rp = write_replay(pid, seed, "unproved", payload)
@@ -657,6 +661,10 @@ def run_replay(cfg, path):
                2: "PROPERTY ORACLE FAILS on the implementation's behaviour"}
     log("verdict code %d: %s" % (code, meaning.get(code, "oracle fails inside known-finding class %d" % (code - 100))))
     if code == 0:
+        return 0
+    known_classes = {f["class"]: f for f in load_known().get("findings", []) if f["property"] == pid}
+    if code >= 100 and (code - 100) in known_classes:
+        log("KNOWN-FINDING: property=%s %s" % (pid, known_classes[code - 100]["what"]))
         return 0
     log("VIOLATION property=%s replay=%s" % (pid, path))
     return 1
